@@ -503,6 +503,40 @@ def bi_itertools_zip_longest(e, st, args, kw, node):
 bi_zip_longest = bi_itertools_zip_longest
 
 
+def _np_list(e, st, v):
+    st, l = _materialize(e, st, v)
+    return st, l
+
+
+def bi_numpy_ones(e, st, args, kw, node):
+    n = e.num(args[0])
+    r = e.fresh_list(REAL, 'ones', n=z3.If(n > 0, n, 0))
+    k = z3.Int(fresh_name('onk'))
+    st.assume(z3.ForAll([k], z3.Implies(z3.And(0 <= k, k < r.n), z3.Select(r.arrs[0], k) == 1), patterns=[z3.Select(r.arrs[0], k)]))
+    return st, st.new_list(r)
+
+
+def bi_numpy_sum(e, st, args, kw, node):
+    """np.sum(a): ASSUMED the sum of the elements (tied to the same prefix-sum function as sum())"""
+    st, l = _materialize(e, st, args[0])
+    e.assumptions.add('numpy.sum(a): the sum of the elements')
+    return st, VReal(z3.ToReal(e.psum(st, l, None, None, st.cur)) if l.elem is INT else e.psum(st, l, None, None, st.cur))
+
+
+def bi_numpy_max(e, st, args, kw, node):
+    """np.max(a): ASSUMED an element that is >= every element; ValueError on an empty array"""
+    st, l = _materialize(e, st, args[0])
+    site = e.site(st, 'call')
+    e.assumptions.add('numpy.max(a): the largest element; requires a non-empty array')
+    e.check(st, l.n >= 1, f"safety[{site}]::max_of_nonempty_array", 'safety')
+    m = z3.Real(fresh_name('npmax'))
+    k = z3.Int(fresh_name('mxk'))
+    x = e.num(l.at(k))
+    st.assume(z3.ForAll([k], z3.Implies(z3.And(0 <= k, k < l.n), m >= x), patterns=[z3.Select(l.arrs[0], l.off + k)]),
+              z3.Exists([k], z3.And(0 <= k, k < l.n, m == x)))
+    return st, VReal(m)
+
+
 def bi_scipy_signal_correlate(e, st, args, kw, node):
     """scipy.signal.correlate(a, b, mode='valid'): ASSUMED an array of len(a) - len(b) + 1 values when a is at least as long as b (values unconstrained:
     floating-point FFT numerics are outside the verifier)"""
